@@ -350,6 +350,7 @@ class Effects:
             out |= remaining
             out |= self._block(st.orelse, f, caught)
             out |= self._block(st.finalbody, f, caught)
+            out |= self._unbound_in_handlers(st, f)
             return out
         if isinstance(st, (ast.If, ast.While)):
             return (self._expr(st.test, f) | self._block(st.body, f, caught)
@@ -385,6 +386,67 @@ class Effects:
         for child in ast.iter_child_nodes(st):
             if isinstance(child, ast.expr):
                 out |= self._expr(child, f)
+        return out
+
+    def _unbound_in_handlers(self, st: ast.Try, f: FuncInfo) -> set[str]:
+        """Definite assignment on the error path: an except / finally clause that reads a local
+        whose only bindings sit in the try body, at or behind a statement that can raise into
+        that clause, raises UnboundLocalError instead of doing its work."""
+        fn = f.node
+        params = {a.arg for a in ast.walk(fn.args) if isinstance(a, ast.arg)}
+        bound_in_try: dict[str, int] = {}
+        for i, b in enumerate(st.body):
+            for n in ast.walk(b):
+                if isinstance(n, ast.Name) and isinstance(n.ctx, ast.Store):
+                    bound_in_try.setdefault(n.id, i)
+        if not bound_in_try:
+            return set()
+        inside = {id(n) for n in ast.walk(st)}
+        elsewhere = set(params)
+        for n in ast.walk(fn):
+            if id(n) in inside:
+                continue
+            if isinstance(n, ast.Name) and isinstance(n.ctx, ast.Store):
+                elsewhere.add(n.id)
+            elif isinstance(n, (ast.Global, ast.Nonlocal)):
+                elsewhere |= set(n.names)
+            elif isinstance(n, ast.ExceptHandler) and n.name:
+                elsewhere.add(n.name)
+            elif isinstance(n, (ast.Import, ast.ImportFrom)):
+                elsewhere |= {(a.asname or a.name).split(".")[0] for a in n.names}
+        out: set[str] = set()
+        clauses = [(h, h.body) for h in st.handlers] + ([(None, st.finalbody)] if st.finalbody else [])
+        raising_upto: dict[int, set[str]] = {}
+        for h, body in clauses:
+            stored_here = {n.id for b in body for n in ast.walk(b)
+                           if isinstance(n, ast.Name) and isinstance(n.ctx, ast.Store)}
+            comp_bound = {n.id for b in body for c in ast.walk(b)
+                          if isinstance(c, ast.comprehension) for n in ast.walk(c.target)
+                          if isinstance(n, ast.Name)}
+            for b in body:
+                for n in ast.walk(b):
+                    if not (isinstance(n, ast.Name) and isinstance(n.ctx, ast.Load)):
+                        continue
+                    nm = n.id
+                    if nm not in bound_in_try or nm in elsewhere or nm in stored_here \
+                            or nm in comp_bound or (h is not None and nm == h.name):
+                        continue
+                    k = bound_in_try[nm]
+                    if k not in raising_upto:
+                        saved = self._cur_trace
+                        self._cur_trace = {}
+                        raising_upto[k] = self._block(st.body[:k + 1], f, None)
+                        self._cur_trace = saved
+                    r = raising_upto[k]
+                    if h is not None:
+                        types = self.handler_types(h)
+                        r = {e for e in r if self.caught_by(e, types)}
+                    if r:
+                        out.add("UnboundLocalError")
+                        self._note(f, n, ["UnboundLocalError"],
+                                   f"`{nm}` is bound only inside the try body (statement {k + 1}); "
+                                   f"{sorted(r)[0]} raised at or before that statement reaches this "
+                                   f"clause with `{nm}` unbound")
         return out
 
     @staticmethod
